@@ -106,6 +106,20 @@ func (self Reflect) isEmpty(v reflect.Value) bool {
 	return false
 }
 
+func (self Reflect) isEmptyList(v reflect.Value) bool {
+	if v.IsValid() && v.Kind() == reflect.Interface {
+		v = v.Elem()
+	}
+	if !v.IsValid() {
+		return true
+	}
+	switch v.Kind() {
+	case reflect.Slice, reflect.Map:
+		return v.Len() == 0
+	}
+	return false
+}
+
 type OnReflectChild func(Reflect, reflect.Value) node.Node
 
 func (self Reflect) Object(obj interface{}) node.Node {
@@ -397,6 +411,10 @@ func (self Reflect) childMap(v reflect.Value) node.Node {
 				childInstance = v.MapIndex(mapKey)
 			}
 			if meta.IsList(r.Meta) {
+				if !r.New && self.isEmptyList(childInstance) {
+					// a list whose last entry was deleted does not exist any more
+					return nil, nil
+				}
 				onUpdate := func(update reflect.Value) {
 					v.SetMapIndex(mapKey, update)
 				}
